@@ -60,6 +60,7 @@ func Identical(x, y types.Type) bool {
 }
 
 func typeIdentical(x, y types.Type, p *ifacePair) bool {
+	x, y = types.Unalias(x), types.Unalias(y)
 	if x == y {
 		return true
 	}
@@ -98,7 +99,7 @@ func typeIdentical(x, y types.Type, p *ifacePair) bool {
 				for i := 0; i < x.NumFields(); i++ {
 					f := x.Field(i)
 					g := y.Field(i)
-					if f.Embedded() != g.Embedded() || !sameID(f, g.Pkg(), g.Name()) || !typeIdentical(f.Type(), g.Type(), p) {
+					if f.Embedded() != g.Embedded() || x.Tag(i) != y.Tag(i) || !sameID(f, g.Pkg(), g.Name()) || !typeIdentical(f.Type(), g.Type(), p) {
 						return false
 					}
 				}
@@ -213,10 +214,19 @@ func typeIdentical(x, y types.Type, p *ifacePair) bool {
 		if !ok {
 			return false
 		}
+		// Instantiations of a generic type share Obj(): their type arguments must be identical.
+		if x.TypeArgs().Len() != y.TypeArgs().Len() {
+			return false
+		}
+		for i := 0; i < x.TypeArgs().Len(); i++ {
+			if !typeIdentical(x.TypeArgs().At(i), y.TypeArgs().At(i), p) {
+				return false
+			}
+		}
 		if x.Obj() == y.Obj() {
 			return true
 		}
-		return sameID(x.Obj(), y.Obj().Pkg(), y.Obj().Name())
+		return sameDecl(x.Obj(), y.Obj())
 
 	case *typeparams.TypeParam:
 		// nothing to do (x and y being equal is caught in the very beginning of this function)
@@ -245,6 +255,16 @@ type ifacePair struct {
 func (p *ifacePair) identical(q *ifacePair) bool {
 	return (p.x == q.x && p.y == q.y) ||
 		(p.x == q.y && p.y == q.x)
+}
+
+// sameDecl reports whether two distinct type name objects denote the same
+// declaration seen by two type-checks: both are package-level objects with
+// the same name declared in packages with the same path.
+func sameDecl(a, b *types.TypeName) bool {
+	if a.Name() != b.Name() || a.Pkg() == nil || b.Pkg() == nil {
+		return false
+	}
+	return a.Parent() == a.Pkg().Scope() && b.Parent() == b.Pkg().Scope() && a.Pkg().Path() == b.Pkg().Path()
 }
 
 func sameID(obj types.Object, pkg *types.Package, name string) bool {
